@@ -23,8 +23,9 @@
 (*                                                                         *)
 (* The ghost tallies are naturals.  The counters are what the constant     *)
 (* Wrap says:  Wrap = 0      unbounded naturals (what property C02 needs), *)
-(*             Wrap = 65536  `Word ErrorCount, WarnCount` of the pinned    *)
-(*                           tree (asmerr.c:39) - the deviation to catch.  *)
+(*             Wrap = 65536  `Word ErrorCount, WarnCount` as originally    *)
+(*                           pinned (asmerr.c:39) - the deviation to catch *)
+(*                           (repaired: proposed_fixes/C02-wide-counters). *)
 (*                                                                         *)
 (* Named deviations of the code from what a reader of the manual expects   *)
 (* (modelled as the code behaves, not idealised):                          *)
